@@ -280,6 +280,64 @@ func (s *crashSessionState) crashRunOp(f []string) (string, error) {
 			return s.db.PutBytes(k, v)
 		})
 		return crashErrKind(e), nil
+	case "putmany":
+		// putmany <seed> <count> <delpct> <vmax> <hexkey,hexkey,...>: the calls of crashBulkSeq back to back
+		if err := need(5); err != nil {
+			return "", err
+		}
+		if err := needDB(); err != nil {
+			return "", err
+		}
+		seed, err := strconv.ParseUint(f[1], 10, 64)
+		if err != nil {
+			return "", err
+		}
+		var nums [3]int
+		for i := range nums {
+			if nums[i], err = strconv.Atoi(f[2+i]); err != nil {
+				return "", err
+			}
+		}
+		var keys [][]byte
+		for _, hk := range strings.Split(f[5], ",") {
+			k, err := hex.DecodeString(hk)
+			if err != nil {
+				return "", err
+			}
+			keys = append(keys, k)
+		}
+		if nums[0] < 0 || nums[2] < 1 || len(keys) == 0 || len(keys) > 255 {
+			return "", fmt.Errorf("putmany: bad arguments")
+		}
+		at := -1
+		e := safely(func() error {
+			for i, in := range crashBulkSeq(seed, nums[0], nums[1], nums[2], len(keys)) {
+				k := keys[in.Key]
+				var err error
+				switch {
+				case in.Del && in.Str:
+					err = s.db.Delete(string(k))
+				case in.Del:
+					err = s.db.DeleteBytes(k)
+				default:
+					v, _ := hex.DecodeString(in.Val)
+					if in.Str {
+						err = s.db.Put(string(k), string(v))
+					} else {
+						err = s.db.PutBytes(k, v)
+					}
+				}
+				if err != nil {
+					at = i
+					return err
+				}
+			}
+			return nil
+		})
+		if e != nil {
+			return fmt.Sprintf("%s at-call=%d", crashErrKind(e), at), nil
+		}
+		return "ok", nil
 	case "del", "delb":
 		if err := need(1); err != nil {
 			return "", err
@@ -357,14 +415,24 @@ func (s *crashSessionState) crashRunOp(f []string) (string, error) {
 
 	// bare write-ahead log (C07); the log lives directly in the session directory
 	case "walopen":
-		if len(f) < 2 || len(f) > 3 {
-			return "", fmt.Errorf("walopen <maxsize> [<bufsize>]")
+		if len(f) < 2 || len(f) > 4 || len(f) == 4 && f[3] != "direct" {
+			return "", fmt.Errorf("walopen <maxsize> [<bufsize> [direct]]")
 		}
 		maxSize, err := strconv.ParseUint(f[1], 10, 64)
 		if err != nil {
 			return "", err
 		}
 		opts := []wal.Option{wal.BasePath(s.dir), wal.MaximumWalFileSizeBytes(maxSize)}
+		if len(f) == 4 {
+			// the writer factory builds direct-I/O writers (block buffer of <bufsize> bytes)
+			buf, err := strconv.Atoi(f[2])
+			if err != nil || buf <= 0 {
+				return "", fmt.Errorf("walopen: bad block buffer size %q", f[2])
+			}
+			opts = append(opts, wal.WriterFactory(func(path string) (recordio.WriterI, error) {
+				return recordio.NewFileWriter(recordio.Path(path), recordio.BufferSizeBytes(buf), recordio.DirectIO())
+			}))
+		}
 		if len(f) == 3 {
 			buf, err := strconv.Atoi(f[2])
 			if err != nil {
